@@ -78,6 +78,15 @@ type P2Data struct {
 	S nodes.NodeOutput[string]
 }
 
+// S3Data hands its input on unchanged: it puts p2 three node levels above the parameters (p2 -> s3
+// -> s1 -> a, b) with no shorter path, so that p2 learns of an update only through the staleness of
+// nodes whose own versions have not moved yet.
+type S3Data struct {
+	S nodes.NodeOutput[string]
+}
+
+func (d S3Data) Process() (string, error) { return d.S.Value(), nil }
+
 // P2 cannot render one state of the graph (a = 2 and b = 2): its processor panics, as a processor
 // handed an impossible parameter combination does.  The failed call fails; nothing else may follow
 // from it — the next call on that state fails again, the next call on another state succeeds.
@@ -150,7 +159,8 @@ func graphParts() (a, b *parameter.Value[int], cp *parameter.Value[[]int], p1, p
 	s1 := &nodes.Struct[string, S1Data]{Data: S1Data{A: a.Out(), B: b.Out()}}
 	s2 := &nodes.Struct[string, S2Data]{Data: S2Data{S: s1.Out(), A: a.Out()}}
 	p1 = (&nodes.Struct[artifact.Artifact, P1Data]{Data: P1Data{S: s2.Out(), B: b.Out()}}).Out()
-	p2 = (&nodes.Struct[artifact.Artifact, P2Data]{Data: P2Data{S: s1.Out()}}).Out()
+	s3 := &nodes.Struct[string, S3Data]{Data: S3Data{S: s1.Out()}}
+	p2 = (&nodes.Struct[artifact.Artifact, P2Data]{Data: P2Data{S: s3.Out()}}).Out()
 	return
 }
 
